@@ -1,5 +1,5 @@
 from checks import CHECKS
-HOOK_COMMITS = []
+HOOK_COMMITS = ["79a73b8 verif hooks: two guarded include points in atomic.h (MI_VERIF_HOOKS)"]
 PBT = "property-based testing: generated API histories vs. an executable shadow model, fresh process per case, IR shrinking"
 META = {
  "C01": {"text": "Generated single-thread histories over all allocation/release/resize entry points, sizes 0..100 MiB, heaps, collects and helper-thread frees are executed against a shadow model that checks interval disjointness and a byte pattern over the full usable size after every step, on the release, full-debug and secure builds. Exploration is the right level: the property quantifies over unbounded histories; the check reports how many distinct non-trivial histories it ran.",
@@ -48,5 +48,20 @@ META.update({
  "C17": {"text": "A generated history receives injected misuses (second free, one foreign byte at the requested size, XOR-forged free-list link; local or remote free) at generated positions on the secure and the debug build with the error callback registered; the oracle is the delivered error code (exactly one EAGAIN / an EFAULT no later than the re-allocation) and, on the secure build, continued consistency (no address twice, nothing outside the heap regions, C01 model for the rest of the history). One known finding (F14: delayed-free list links are not validated) is excluded by construction and demonstrated by a replay.",
          "design_ref": "DESIGN.md §5 C17", "note": NOTE_HIST + " The same-area escape (a forged value decoding into the same page) is avoided by construction of the forged value instead of being classified white-box.", "technique": "property-based testing with injected API misuse; oracle = error callback codes + shadow model"},
 })
+
+SCHED_TECH = "property-based testing over (program, schedule) pairs with a deterministic scheduler: every mi_atomic operation is a scheduling point (guarded header hook), all single preemptions enumerated per program, multi-preemption schedules and spurious weak-CAS failures sampled; shadow-model oracle between scheduling points"
+NOTE_SCHED = "Trusts the scheduler (real pthreads run one at a time, baton hand-off), the hook header (each wrapper evaluates its pointer argument once; a spurious weak-CAS failure reports the current value) and the shadow model. Sequentially consistent interleavings at atomic-operation granularity only; 2-3 threads, <= ~60 operations per program. Linux x86-64."
+META.update({
+ "C02": {"text": "Small generated multi-threaded programs (allocate into shared slots, free blocks of any thread, collect) are run under generated schedules with the scheduler owning every atomic operation of the allocator; the shadow model is evaluated atomically between scheduling points (no overlap with any live block, contents intact), plus end-of-run emptiness, hang detection and no allocator error report.",
+         "design_ref": "DESIGN.md §5 C02, §4.3", "note": NOTE_SCHED, "technique": SCHED_TECH, "engine": "deterministic scheduler + choice-stream engine"},
+ "C08": {"text": "(a) Owner/remote-free programs under generated schedules: once every block has been freed (by whichever thread) and the owner force-collects, its heap must report no used block. (b) Bounded producer/consumer runs of 600-2500 rounds: the number of areas of the producing heap stays below live pages + one clean-up period + slack, independent of the number of rounds.",
+         "design_ref": "DESIGN.md §5 C08", "note": NOTE_SCHED + " Liveness is only claimed in the bounded form 'after an explicit forced collect at quiescence' / 'area count bounded over the run'.", "technique": SCHED_TECH, "engine": "deterministic scheduler + choice-stream engine"},
+ "C09": {"text": "Programs in which threads end (mi_thread_done, scheduled) with live blocks while other threads free them, allocate (reclaim) and collect, under reclaim-on-free / OS-segment / visit-abandoned / reclaim-percentage options and generated schedules. Oracle: model across threads (a doubly adopted page would hand out overlapping blocks), and at quiescence nothing remains: main heap empty, abandoned walk empty, no OS segment mapped. Found and now guards a repaired racy debug assertion (F15).",
+         "design_ref": "DESIGN.md §5 C09", "note": NOTE_SCHED + " Real pthread_exit-driven termination (unscheduled) is covered by the helper threads of the hist harness.", "technique": SCHED_TECH, "engine": "deterministic scheduler + choice-stream engine"},
+ "C14": {"text": "Two levels under generated schedules: raw bitmap claim/release scripts against a reference bit set (claimed ranges disjoint and in range; at the end every field equals pre-claimed | held), and a shared 2-4 GiB exclusive arena in which threads allocate/free 1-5 segment blocks with purging racing allocation (blocks disjoint, inside the arena; afterwards the arena is again allocatable completely).",
+         "design_ref": "DESIGN.md §5 C14", "note": NOTE_SCHED + " The bitmap level calls _mi_bitmap_try_find_from_claim_across / _mi_bitmap_unclaim_across directly (non-static internal symbols).", "technique": SCHED_TECH, "engine": "deterministic scheduler + choice-stream engine"},
+})
+META["C10"]["text"] += " Schedule-quantified half: heap delete / collect racing remote frees under the deterministic scheduler (sched-dbg, sched-rel runs of the same check)."
+META["C10"]["note"] += " " + NOTE_SCHED
 ALL = ["C%02d" % i for i in range(1, 21)]
 NOT_APPLICABLE = [{"property_id": p, "reason": "check not built yet in this revision (planned, see DESIGN.md §10); not claimed"} for p in ALL if p not in CHECKS]
